@@ -94,6 +94,13 @@ def gen_tree(rng, malformed=False):
         ff += ['[ nonbond_params ]', 'TA TB 1 0.33 0.9']
     files[f'{ffdir}/ff.itp'] = ff
     root.append(f'#include "{ffdir}/ff.itp"')
+    # the same file included more than once: a type table read twice (directly after the nested include: a
+    # diamond), and a selector file whose content depends on a macro defined between its two inclusions
+    if f'{ffdir}/bonded.itp' in files and rng.random() < 0.3:
+        root.append(f'#include "{ffdir}/bonded.itp"')
+    if rng.random() < 0.25:
+        files['common/sel.itp'] = ['#ifdef LATE', '[ atomtypes ]', 'TC 16.0 0.0 A 0.4 1.0', '#else', '[ atomtypes ]', 'TD 18.0 0.0 A 0.45 1.2', '#endif']
+        root += ['#include "common/sel.itp"', '#define LATE', '#include "common/sel.itp"']
     # optional late define + conditional error
     if rng.random() < 0.4:
         m = rng.choice(macros)
